@@ -73,7 +73,7 @@ type Unit struct {
 	known       map[string]bool
 }
 
-const maxNonTrivial = 3_000_000
+const maxNonTrivial = 1_000_000
 
 // Tier is "quick" or "thorough".
 func Tier() string {
